@@ -7,6 +7,7 @@ from .lang import Roles
 from .origin import Origins, show, walk
 from .util import Vars, reaches_without
 
+TECHNIQUE = 'static analysis: typestate may-analysis over all paths of the parser; dominance/cut queries; decision tables of tree-construction effects over path-precise origins; literal-table agreement; panic-site audit'
 LEVEL = "other"
 EXPLANATION = (
     "All-paths analysis of parse::parse: (RESET) a forward may-analysis over the typestate {Reset, Built} of the two "
